@@ -38,13 +38,13 @@ CHECKS = {
         note="Handshake keys are fresh per run (random), signatures and counts are key-independent; Retry integrity not modelled."),
     "C07": dict(
         engine="E1-xplore", category="model_checking", design_ref="§3 C07",
-        technique="explicit-state BFS over begin/record/build/abandon/ack/loss histories of the real ArcSentJournal (pn uniqueness) + exhaustive enumeration of (pn, largest_acked, receiver position) triples through PacketNumber encode -> wire -> decode",
-        text="(a) every history <= 7 ops (thorough 9) of packet assemblies (0-2 frames, trivial, build_with_time/build_trivial, abandoned guards) interleaved with acks/losses: every built packet's number is strictly larger than all earlier ones, abandoned assemblies consume nothing; (b) ~14 M (thorough 290 M) triples: decode(encode(pn, la), expected) == pn.",
+        technique="explicit-state BFS over begin/record/build/abandon/ack/loss histories of the real ArcSentJournal (pn uniqueness) + exhaustive enumeration of (pn, largest_acked, receiver position) triples through PacketNumber encode -> wire -> decode + controlled-scheduler (CHESS-style, preemption-bounded, exhaustive) exploration of 2-3 logical threads assembling packets through the real tx::PacketWriter over one shared journal",
+        text="(d) part `tx`: six scenarios (two/three paths, full and trivial writers, abandoned assembly, concurrent ACK processing), every schedule within preemption bound 3 (2 for three threads; thorough: unbounded) with scheduling points inside the assembly: no packet number is used twice as AEAD nonce input, per-path numbers increase, reported number == protected number, journal numbers the next packet above all sent. (a) every history <= 7 ops (thorough 9) of packet assemblies (0-2 frames, trivial, build_with_time/build_trivial, abandoned guards) interleaved with acks/losses: every built packet's number is strictly larger than all earlier ones, abandoned assemblies consume nothing; (b) ~14 M (thorough 290 M) triples: decode(encode(pn, la), expected) == pn.",
         note="(a) <= 3-4 packets; (b) boundary sets for pn and distances; (c) E3 monitor: packet numbers in captured qlog packet_sent events strictly increase per (endpoint, space) in every execution with <= 1 deviation."),
     "C08": dict(
         engine="E1-xplore", category="model_checking", design_ref="§3 C08",
-        technique="explicit-state BFS to closure over operation histories of the real RecvBuf against a covered-offset-set reference",
-        text="Every reachable state of the real RecvBuf for streams of 3/6/8 (thorough: up to 12) position-identifying bytes under all recv(off,len) slices, capacity-limited reads and try_next is visited (closure: histories of any length) and the reassembly/charging oracle is evaluated on every transition.",
+        technique="explicit-state BFS to closure over operation histories of the real RecvBuf, of the real stream receiver state machine (through a DataStreams endpoint and its flow-controlled frame entry) and of the real crypto-stream receiver, against a covered-offset-set reference",
+        text="Part `recver`: every reachable state of the real stream receiver (uni and bidi, windows exactly the stream length) and crypto receiver for streams of 3-7 (thorough: up to 10) bytes under every frame slice incl. empty and FIN-only frames and reads of 1/2/8 bytes: reads give exactly the contiguous prefix, end of stream exactly when everything and the final size arrived, no legitimate frame refused. Every reachable state of the real RecvBuf for streams of 3/6/8 (thorough: up to 12) position-identifying bytes under all recv(off,len) slices, capacity-limited reads and try_next is visited (closure: histories of any length) and the reassembly/charging oracle is evaluated on every transition.",
         note="Stream length bounded; contents position-identifying; dedup on the complete Debug dump of the real object (128-bit hash)."),
     "C09": dict(
         engine="E1-xplore", category="model_checking", design_ref="§3 C09",
